@@ -72,22 +72,22 @@ type Worker struct {
 	solver *Solver
 
 	// per path
-	prefix    []Decision
-	decs      []Decision
-	dpos      int
-	pc        []*Term
-	probed    map[int32]bool
-	choices   []uint64
-	steps     int64
-	nondetSeq map[string]int
-	opqSeq    int
-	observed  []ObsRec
-	events    []pathEvent
-	reached   []string
-	trace     []string
-	expectPanic bool
-	lastClock   *Term
-	fixedPos    int
+	prefix        []Decision
+	decs          []Decision
+	dpos          int
+	pc            []*Term
+	probed        map[int32]bool
+	choices       []uint64
+	steps         int64
+	nondetSeq     map[string]int
+	opqSeq        int
+	observed      []ObsRec
+	events        []pathEvent
+	reached       []string
+	trace         []string
+	expectPanic   bool
+	lastClock     *Term
+	fixedPos      int
 	clockReadings []value
 	boundCache    map[string]bool
 	concCache     map[int32]uint64
